@@ -157,4 +157,103 @@ DQMat3x4(re, du) == LET R == QuatToMat3H(re) t == DQTrans(re, du)
                                     MAt(R, 1, 2), MAt(R, 2, 2), MAt(R, 3, 2), t[2],
                                     MAt(R, 1, 3), MAt(R, 2, 3), MAt(R, 3, 3), t[3] >>)
 
+
+\* ================================================================ dyadic evaluators (used by Trace_C04)
+\* Every logged float is a dyadic number and every oracle of the trace specification is a polynomial in the logged values and in
+\* the logged integers (rational angles cos = cn/d, sin = sn/d enter as the integers cn, sn, d with the expected value scaled by
+\* the product of the d's).  Evaluating these polynomials with Exact's dyadics (one multiplication per product, no denominators)
+\* is several times cheaper under TLC than with unreduced rationals.  The operators below are the dyadic twins of the LinQ / GlmQuat
+\* definitions above; MC_C04 checks on its whole state space that they agree with those definitions.
+\* 3x3 matrices are flat column-major sequences of 9 dyadics (entry (col c, row r) at 3 (c - 1) + r).
+DI(n) == DFromInt(n)
+DSeqW(ws) == [i \in 1..Len(ws) |-> DOfW(ws[i])]
+DIntW(w) == DFromZ(IntZ(w))
+DIntSeq(ws) == [i \in 1..Len(ws) |-> DIntW(ws[i])]
+QOfDs(ds) == [i \in 1..Len(ds) |-> QFromD(ds[i])]
+DSq(a) == DMul(a, a)
+DvAdd(a, b) == [i \in 1..Len(a) |-> DAdd(a[i], b[i])]
+DvSub(a, b) == [i \in 1..Len(a) |-> DSub(a[i], b[i])]
+DvNeg(a) == [i \in 1..Len(a) |-> DNeg(a[i])]
+DvScale(a, k) == [i \in 1..Len(a) |-> DMul(a[i], k)]
+DvDot(a, b) == DSum([i \in 1..Len(a) |-> DMul(a[i], b[i])])
+DvNorm2(a) == DvDot(a, a)
+DvCross(a, b) == << DSub(DMul(a[2], b[3]), DMul(a[3], b[2])), DSub(DMul(a[3], b[1]), DMul(a[1], b[3])), DSub(DMul(a[1], b[2]), DMul(a[2], b[1])) >>
+DvSum1(a) == DSum([i \in 1..Len(a) |-> DAbs(a[i])])
+DvIsZero(a) == \A i \in 1..Len(a) : DIsZero(a[i])
+DvEq(a, b) == Len(a) = Len(b) /\ \A i \in 1..Len(a) : DEq(a[i], b[i])
+DOne == DI(1)
+DV3(s) == << s[1], s[2], s[3] >>
+DQVec(q) == << q[2], q[3], q[4] >>
+DQId == << DOne, DZero, DZero, DZero >>
+Dm3Id == << DOne, DZero, DZero, DZero, DOne, DZero, DZero, DZero, DOne >>
+Dm3Mul(A, B) == [k \in 1..9 |-> LET c == (k - 1) \div 3 r == ((k - 1) % 3) + 1 IN DSum([j \in 1..3 |-> DMul(A[3 * (j - 1) + r], B[3 * c + j])])]
+Dm3Vec(A, v) == [r \in 1..3 |-> DSum([k \in 1..3 |-> DMul(A[3 * (k - 1) + r], v[k])])]
+Dm3T(A) == [k \in 1..9 |-> A[3 * ((k - 1) % 3) + ((k - 1) \div 3) + 1]]
+Dm3Scale(A, s) == [k \in 1..9 |-> DMul(A[k], s)]
+DqMul(p, q) ==
+    << DSub(DSub(DSub(DMul(p[1], q[1]), DMul(p[2], q[2])), DMul(p[3], q[3])), DMul(p[4], q[4])),
+       DSub(DAdd(DAdd(DMul(p[1], q[2]), DMul(p[2], q[1])), DMul(p[3], q[4])), DMul(p[4], q[3])),
+       DSub(DAdd(DAdd(DMul(p[1], q[3]), DMul(p[3], q[1])), DMul(p[4], q[2])), DMul(p[2], q[4])),
+       DSub(DAdd(DAdd(DMul(p[1], q[4]), DMul(p[4], q[1])), DMul(p[2], q[3])), DMul(p[3], q[2])) >>
+DqConj(q) == << q[1], DNeg(q[2]), DNeg(q[3]), DNeg(q[4]) >>
+DqNorm2(q) == DvNorm2(q)
+DqToMat3(q) ==
+    LET w == q[1] x == q[2] y == q[3] z == q[4]
+        xx == DMul(x, x) yy == DMul(y, y) zz == DMul(z, z) xy == DMul(x, y) xz == DMul(x, z) yz == DMul(y, z)
+        wx == DMul(w, x) wy == DMul(w, y) wz == DMul(w, z)
+    IN << DSub(DOne, DMul2k(DAdd(yy, zz), 1)), DMul2k(DAdd(xy, wz), 1), DMul2k(DSub(xz, wy), 1),
+          DMul2k(DSub(xy, wz), 1), DSub(DOne, DMul2k(DAdd(xx, zz), 1)), DMul2k(DAdd(yz, wx), 1),
+          DMul2k(DAdd(xz, wy), 1), DMul2k(DSub(yz, wx), 1), DSub(DOne, DMul2k(DAdd(xx, yy), 1)) >>
+\* q v q* for a unit q, through the rotation matrix (equal to LinQ's QuatRotate when |q| = 1; checked by MC_C04)
+DqRotate(q, v) == Dm3Vec(DqToMat3(q), v)
+\* q (0, v) q* exactly (= |q|^2 times the rotation)
+DqSandwich(q, v) == LET r == DqMul(DqMul(q, << DZero, v[1], v[2], v[3] >>), DqConj(q)) IN << r[2], r[3], r[4] >>
+DPitchY(q) == DMul2k(DAdd(DMul(q[3], q[4]), DMul(q[1], q[2])), 1)
+DPitchX(q) == DAdd(DSub(DSub(DSq(q[1]), DSq(q[2])), DSq(q[3])), DSq(q[4]))
+DRollY(q) == DMul2k(DAdd(DMul(q[2], q[3]), DMul(q[1], q[4])), 1)
+DRollX(q) == DSub(DSub(DAdd(DSq(q[1]), DSq(q[2])), DSq(q[3])), DSq(q[4]))
+DYawSin(q) == DMul2k(DSub(DMul(q[1], q[3]), DMul(q[2], q[4])), 1)
+DCosYaw2(q) == DAdd(DSq(DRollX(q)), DSq(DRollY(q)))
+\* single-axis rotations from a triple t = <<cn, sn, d>> (cos = cn/d, sin = sn/d), SCALED by d; from a pair <<c, s>> use <<c, s, 1>>
+DRotXs(t) == << t[3], DZero, DZero,   DZero, t[1], t[2],   DZero, DNeg(t[2]), t[1] >>
+DRotYs(t) == << t[1], DZero, DNeg(t[2]),   DZero, t[3], DZero,   t[2], DZero, t[1] >>
+DRotZs(t) == << t[1], t[2], DZero,   DNeg(t[2]), t[1], DZero,   DZero, DZero, t[3] >>
+DAxisRots(ax, t) == CASE ax = "X" -> DRotXs(t) [] ax = "Y" -> DRotYs(t) [] ax = "Z" -> DRotZs(t)
+RECURSIVE DRotProds(_, _, _)
+DRotProds(axes, ts, i) == IF i = Len(axes) THEN DAxisRots(axes[i], ts[i]) ELSE Dm3Mul(DAxisRots(axes[i], ts[i]), DRotProds(axes, ts, i + 1))
+DEulerMats(nm, ts) == DRotProds(EulerAxes(nm), ts, 1)                     \* = EulerMat(nm, ps) * DenProd(ts)
+RECURSIVE DenProdFrom(_, _)
+DenProdFrom(ts, i) == IF i > Len(ts) THEN DOne ELSE DMul(ts[i][3], DenProdFrom(ts, i + 1))
+DenProd(ts) == DenProdFrom(ts, 1)
+DTriples(l) == [k \in 1..(Len(l) \div 3) |-> << l[3 * k - 2], l[3 * k - 1], l[3 * k] >>]     \* flat list of dyadics -> triples
+DTripleOK(t) == DSign(t[3]) > 0 /\ DEq(DAdd(DSq(t[1]), DSq(t[2])), DSq(t[3]))
+\* derivative matrices scaled by d
+DDRotXs(t, w) == << DZero, DZero, DZero,   DZero, DMul(DNeg(t[2]), w), DMul(t[1], w),   DZero, DMul(DNeg(t[1]), w), DMul(DNeg(t[2]), w) >>
+DDRotYs(t, w) == << DMul(DNeg(t[2]), w), DZero, DMul(DNeg(t[1]), w),   DZero, DZero, DZero,   DMul(t[1], w), DZero, DMul(DNeg(t[2]), w) >>
+DDRotZs(t, w) == << DMul(DNeg(t[2]), w), DMul(t[1], w), DZero,   DMul(DNeg(t[1]), w), DMul(DNeg(t[2]), w), DZero,   DZero, DZero, DZero >>
+DDAxisRots(ax, t, w) == CASE ax = "X" -> DDRotXs(t, w) [] ax = "Y" -> DDRotYs(t, w) [] ax = "Z" -> DDRotZs(t, w)
+\* Rodrigues with an integer axis a of integer length L and the triple t: RotAxis3(cn/d, sn/d, a/L) * (d L^2)
+DRotAxiss(t, a, L) ==
+    LET cl == DMul(t[1], DSq(L)) k == DSub(t[3], t[1]) sl == DMul(t[2], L) x == a[1] y == a[2] z == a[3]
+    IN << DAdd(cl, DMul(k, DMul(x, x))), DAdd(DMul(k, DMul(x, y)), DMul(sl, z)), DSub(DMul(k, DMul(x, z)), DMul(sl, y)),
+          DSub(DMul(k, DMul(x, y)), DMul(sl, z)), DAdd(cl, DMul(k, DMul(y, y))), DAdd(DMul(k, DMul(y, z)), DMul(sl, x)),
+          DAdd(DMul(k, DMul(x, z)), DMul(sl, y)), DSub(DMul(k, DMul(y, z)), DMul(sl, x)), DAdd(cl, DMul(k, DMul(z, z))) >>
+\* axis-angle quaternion from the half-angle triple h and the axis a of length L, scaled by d L
+DAngleAxiss(h, a, L) == << DMul(h[1], L), DMul(h[2], a[1]), DMul(h[2], a[2]), DMul(h[2], a[3]) >>
+\* qua(vec3 euler) from three half-angle triples, scaled by the product of the d's
+DEulerQuats(hx, hy, hz) == DqMul(<< hz[1], DZero, DZero, hz[2] >>, DqMul(<< hy[1], DZero, hy[2], DZero >>, << hx[1], hx[2], DZero, DZero >>))
+\* dual quaternions with a unit real part: translation 2 vec(du re*), dual part of (re, t) = (0, t) re / 2
+DDqTrans(re, du) == DvScale(DQVec(DqMul(du, DqConj(re))), DI(2))
+DDqDual(re, t) == DvScale(DqMul(<< DZero, t[1], t[2], t[3] >>, re), DPow2(-1))
+
+\* comparisons: | obs s - exps | <= tol s   (exps = expected value times the positive scale s)
+DNearS(obs, exps, tol, s) == DLe(DAbs(DSub(DMul(obs, s), exps)), DMul(tol, s))
+DMaxDiffLeS(obs, exps, tol, s) == Len(obs) = Len(exps) /\ \A i \in 1..Len(exps) : DNearS(obs[i], exps[i], tol, s)
+DMaxDiffLe(obs, exp, tol) == Len(obs) = Len(exp) /\ \A i \in 1..Len(exp) : DLe(DAbs(DSub(obs[i], exp[i])), tol)
+DPMDiffLe(obs, exp, tol) == DMaxDiffLe(obs, exp, tol) \/ DMaxDiffLe(obs, DvNeg(exp), tol)
+DSqDiffLe(obs, exp, scale, bound) == Len(obs) = Len(exp) /\ \A i \in 1..Len(exp) : DLe(DMul(DSq(DSub(obs[i], exp[i])), scale), bound)
+\* | obs - exp | <= k eps |exp| componentwise (a correctly / faithfully rounded single operation)
+DNearOwn(obs, exp, k, f) == Len(obs) = Len(exp) /\ \A i \in 1..Len(exp) : DLe(DAbs(DSub(obs[i], exp[i])), DMul(DMulInt(Eps(f), k), DAbs(exp[i])))
+\* r ~ sqrt(s): | r^2 - s | <= 3 rel max(s, r^2), r >= 0
+DIsSqrtNear(r, s, rel) == DSign(r) >= 0 /\ DLe(DAbs(DSub(DSq(r), s)), DMul(DMulInt(rel, 3), DMax(s, DSq(r))))
 =============================================================================
